@@ -174,6 +174,13 @@ def campaign_gate(cx):
             def found(l):
                 return l[0] == "is" and l[2] is True and l[1][0] == "call" and l[1][1] == cx.sfx("Raft::has_unapplied_conf_changes")
             require(cx, c, cx.site_key(c, "stepdown"), "the candidate steps down when the newly committed range holds a conf change", found, kill=False)
+            # the scanned range starts right after the commit index as it was BEFORE the fast-forward
+            from ..engine import value_read_before
+            scans = [x for x in cx.prog.call_sites_of(cx.sfx("Raft::has_unapplied_conf_changes")) if x.fn is f]
+            for sc in scans:
+                lo = call_args(cx, sc)[1]
+                okr = value_read_before(cx, sc, 1, "RaftLog::maybe_commit")
+                cx.check(bool(okr) and contains(fld("RaftLog.committed"), lo), cx.site_key(sc, "scan-from-old-commit"), "the conf-change scan starts after the commit index read before the fast-forward (found lower bound %s)" % show(lo), sc)
             st = [("in", l[1], frozenset(["Candidate", "PreCandidate"]), l[3]) for l in cx.guard_lits(c) if l[0] == "in" and is_f(l[1], STATE)][:1]
             ok, n_edges = g.after_edge_must_pass(lambda lits: any(found(l) for l in lits), lambda b, c=c: b == c.block, assume=st)
             cx.check(ok and n_edges >= 1, cx.site_key(c, "stepdown:converse"), "whenever a (pre)candidate finds a conf change in the newly committed range, it does step down", c)
